@@ -112,6 +112,16 @@ M5 = {
  "C19": ("_dispatch_group_wait_slow treats every non-zero futex return as the time-out", "a finite dispatch_block_wait (or group wait) interrupted by a signal", "c12_waits under signals, now also run by C19 / C07 (added): non-zero before the deadline", True),
  "C20": ("surrogate-pair branch of the UTF-8 to UTF-16 transform asks the buffer helper for 2 bytes plus 2 instead of 4", "a region ending with the first byte of a 4-byte sequence after ASCII only", "fragmented differential on the sanitizer build: heap overflow", False),
 }
+M9 = {
+ "C02": ("_dispatch_lane_resume decides to run the lock hand-off by 'drain lock owned by self' instead of the IN_BARRIER transition", "a running item of a serial queue suspends and resumes its own queue while other work is queued or parked", "c02_selfresume (added)", True),
+ "C04": ("_dispatch_sync_block_with_privdata builds dc_flags from the block object's flags only, dropping the caller's DC_FLAG_BARRIER", "dispatch_barrier_sync with a dispatch_block_create object that has no DISPATCH_BLOCK_BARRIER flag, on a concurrent queue", "c04_width syncer: flag-less block objects through dispatch_barrier_sync (added)", True),
+ "C05": ("_dispatch_continuation_with_group_invoke re-reads dc_data after the callout for the implied leave (the change of seeded7/C07)", "a dispatch_group_async item that itself submits into another group first", "tr_group nest now also run by C05 (added)", True),
+ "C07": ("os_mpsc_pop_snapshot_head reads the next link without waiting for a push in flight", "two or more notifications in one snapshot while another thread is between its tail exchange and its link store", "tr_group push mode (pusher held after the tail exchange; added): notifications lost", True),
+ "C08": ("a DISPATCH_TIME_NOW fast path in dispatch_semaphore_wait that re-tries its compare-and-swap without re-checking the value", "two pollers racing for the last permit", "tr_sema permit oracle / SemaP replay", False),
+ "C09": ("dispatch_once_f spins on 'gate word != owner' before parking and returns when the word changes", "three or more callers: a second loser sets the waiters bit while the first is still spinning", "tr_once: returned before the initialiser had completed", False),
+ "C12": ("dispatch_time drops its leading FOREVER test, relying on the decoded value", "dispatch_time(DISPATCH_TIME_FOREVER, non-zero delta)", "T differential and oracle (FOREVER not absorbing)", False),
+ "C18": ("_dispatch_queue_init_specific publishes the list head with a plain store instead of a compare-and-swap", "two or more threads storing the first queue-specific values of a fresh queue at the same moment", "c18_firstset (added): a value stored is not found", True),
+}
 M8 = {
  "C01": ("_dispatch_queue_drain_try_lock leaves ENQUEUED set when a pool thread that popped the queue cannot take the drain lock because another thread owns it", "a synchronous caller owns the queue while the enqueued bit is set and a pool thread pops it in that window (readers + barrier_sync + barrier_async on one concurrent queue)", "lane storm / hierarchy oracles: items stranded", False),
  "C03": ("_dispatch_wait_compute_wlh takes a workloop for the wlh of its hierarchy by type", "two threads contending for an inner queue above a workloop bottom", "hierarchy oracle with a workloop bottom: overlap", False),
@@ -256,9 +266,20 @@ for k, (what, needs, caught, strengthened) in sorted(M8.items()):
                "check_run": "scripts/try_seed.sh %s seeded8/%s" % (k, k),
                "caught_by": caught, "tier": "quick", "missed_at_first_and_check_strengthened": strengthened},
               open(os.path.join(d, "meta.json"), "w"), indent=1)
+root9 = os.path.join(os.path.dirname(root), "seeded9")
+for k, (what, needs, caught, strengthened) in sorted(M9.items()):
+    d = os.path.join(root9, k)
+    if not os.path.isdir(d): continue
+    lines = open(os.path.join(d, "confirm.log")).read().strip().splitlines() if os.path.exists(os.path.join(d, "confirm.log")) else []
+    json.dump({"property": k, "round": 9, "change": what, "needs_to_manifest": needs,
+               "produced_by": "sub-agent given the property text, its own scratch worktree, and one-line descriptions of the seven earlier seeds to avoid; asked for side observations on the unchanged code with reproducers (side_*.c), each also run with poisoned frees",
+               "confirmed": {"how": "scripts/confirm_seed.sh %s /verif/seeded9/%s" % (k, k), "result": " | ".join(lines[-2:]) or "not confirmed"},
+               "check_run": "scripts/try_seed.sh %s seeded9/%s" % (k, k),
+               "caught_by": caught, "tier": "quick", "missed_at_first_and_check_strengthened": strengthened},
+              open(os.path.join(d, "meta.json"), "w"), indent=1)
 import glob
 for mf in glob.glob(os.path.join(os.path.dirname(root), "seeded*", "C*", "meta.json")):
     if os.path.exists(os.path.join(os.path.dirname(mf), "patch.as-delivered.diff")):
         m = json.load(open(mf)); m["rebased"] = "patch.diff was rebased onto later fix: commits that changed its context lines; the change itself is the same. As delivered: patch.as-delivered.diff"
         json.dump(m, open(mf, "w"), indent=1)
-print("meta.json written for", len(M), "+", len(M2), "+", len(M3), "+", len(M4), "+", len(M5), "+", len(M6), "+", len(M7), "+", len(M8), "seeds")
+print("meta.json written for", len(M), "+", len(M2), "+", len(M3), "+", len(M4), "+", len(M5), "+", len(M6), "+", len(M7), "+", len(M8), "+", len(M9), "seeds")
